@@ -1,3 +1,4 @@
+import F3.Proofs.SkelTieGpbft
 import F3.Proofs.InstanceRun
 import F3.Proofs.ParticipantRun
 import F3.Proofs.InstanceGen
@@ -1488,4 +1489,33 @@ example :
 
 end RunLevelParticipant
 
+end F3.Props.C07
+
+namespace F3.Props.C07
+section Skeletons
+
+/-- **The Go functions this property's models mirror still have the statement structure the models were written
+against**: each regenerated skeleton (pre-order list of statement kinds, `tools/go2lean/skel.go`) equals the pinned
+expectation of `F3/Proofs/SkelTie*.lean`. An added early return, cap, loop or dropped branch in one of these functions
+breaks this obligation even when no regenerated *expression* changes. -/
+theorem code_structure_as_modelled :
+    F3.Gen.SkelGpbft.skelQueueAdd = F3.SkelTie.SkelGpbft.skelQueueAddExpected ∧
+    F3.Gen.SkelGpbft.skelQueueDrain = F3.SkelTie.SkelGpbft.skelQueueDrainExpected ∧
+    F3.Gen.SkelGpbft.skelReceiveMessage = F3.SkelTie.SkelGpbft.skelReceiveMessageExpected ∧
+    F3.Gen.SkelGpbft.skelHandleDecision = F3.SkelTie.SkelGpbft.skelHandleDecisionExpected ∧
+    F3.Gen.SkelGpbft.skelReceiveOne = F3.SkelTie.SkelGpbft.skelReceiveOneExpected ∧
+    F3.Gen.SkelGpbft.skelPostReceive = F3.SkelTie.SkelGpbft.skelPostReceiveExpected ∧
+    F3.Gen.SkelGpbft.skelTryQuality = F3.SkelTie.SkelGpbft.skelTryQualityExpected ∧
+    F3.Gen.SkelGpbft.skelTryConverge = F3.SkelTie.SkelGpbft.skelTryConvergeExpected ∧
+    F3.Gen.SkelGpbft.skelTryPrepare = F3.SkelTie.SkelGpbft.skelTryPrepareExpected ∧
+    F3.Gen.SkelGpbft.skelTryCommit = F3.SkelTie.SkelGpbft.skelTryCommitExpected ∧
+    F3.Gen.SkelGpbft.skelTryDecide = F3.SkelTie.SkelGpbft.skelTryDecideExpected ∧
+    F3.Gen.SkelGpbft.skelBeginDecide = F3.SkelTie.SkelGpbft.skelBeginDecideExpected ∧
+    F3.Gen.SkelGpbft.skelSkipToRound = F3.SkelTie.SkelGpbft.skelSkipToRoundExpected ∧
+    F3.Gen.SkelGpbft.skelTryRebroadcast = F3.SkelTie.SkelGpbft.skelTryRebroadcastExpected ∧
+    F3.Gen.SkelGpbft.skelReceiveEachPrefix = F3.SkelTie.SkelGpbft.skelReceiveEachPrefixExpected ∧
+    F3.Gen.SkelGpbft.skelFindStrongQuorumFor = F3.SkelTie.SkelGpbft.skelFindStrongQuorumForExpected :=
+  ⟨F3.SkelTie.SkelGpbft.skelQueueAdd_expected, F3.SkelTie.SkelGpbft.skelQueueDrain_expected, F3.SkelTie.SkelGpbft.skelReceiveMessage_expected, F3.SkelTie.SkelGpbft.skelHandleDecision_expected, F3.SkelTie.SkelGpbft.skelReceiveOne_expected, F3.SkelTie.SkelGpbft.skelPostReceive_expected, F3.SkelTie.SkelGpbft.skelTryQuality_expected, F3.SkelTie.SkelGpbft.skelTryConverge_expected, F3.SkelTie.SkelGpbft.skelTryPrepare_expected, F3.SkelTie.SkelGpbft.skelTryCommit_expected, F3.SkelTie.SkelGpbft.skelTryDecide_expected, F3.SkelTie.SkelGpbft.skelBeginDecide_expected, F3.SkelTie.SkelGpbft.skelSkipToRound_expected, F3.SkelTie.SkelGpbft.skelTryRebroadcast_expected, F3.SkelTie.SkelGpbft.skelReceiveEachPrefix_expected, F3.SkelTie.SkelGpbft.skelFindStrongQuorumFor_expected⟩
+
+end Skeletons
 end F3.Props.C07
